@@ -85,33 +85,42 @@ def tree_type_of_terminal(name: str, tt: str, p: int, use_tt: bool) -> bool:
     return r.type == name and r.p_depth == p
 
 
-def enum_value_symbolic_value(val: str, two_level: bool) -> bool:
+_NS_PARTS = ["xa", "od", "det", "q"]
+
+
+def enum_value_symbolic_value(val: str, depth: int) -> bool:
     """
     pre: 1 <= len(val) <= 3
     pre: all(("a" <= c <= "z") or c == "_" for c in val)
+    pre: 1 <= depth <= 4
     post: _
     """
     ctyp.g_toplevel_ns = {}
-    ns = "xa.od" if two_level else "xa"
+    parts = _NS_PARTS[:depth]
+    ns = ".".join(parts)
     e = ctyp.define_enum(ns, "Color", [val, "other"])
-    want_ns = "xa::od" if two_level else "xa"
-    return e.value_as_cpp(val) == want_ns + "::" + val and str(e) == ns + ".Color"
+    return e.value_as_cpp(val) == "::".join(parts) + "::" + val and str(e) == ns + ".Color"
 
 
-def enum_namespace_symbolic(ns1: str, two_level: bool) -> bool:
+def enum_namespace_symbolic(ns1: str, depth: int) -> bool:
     """
     pre: len(ns1) == 1 and "a" <= ns1 <= "z"
+    pre: 1 <= depth <= 4
     post: _
     """
     ctyp.g_toplevel_ns = {}
-    ns = ns1 + ".sub" if two_level else ns1
+    parts = [ns1] + ["sub", "det", "q"][:depth - 1]
+    ns = ".".join(parts)
     e = ctyp.define_enum(ns, "Color", ["red", "other"])
-    want_ns = ns1 + "::sub" if two_level else ns1
     top = ctyp.get_toplevel_ns(ns1)
     if top is None:
         return False
-    holder = top.get_ns("sub") if two_level else top
-    return e.value_as_cpp("red") == want_ns + "::red" and holder is not None and holder.get_enum("Color") is e
+    holder = top
+    for part in parts[1:]:
+        holder = holder.get_ns(part)
+        if holder is None:
+            return False
+    return e.value_as_cpp("red") == "::".join(parts) + "::red" and holder.get_enum("Color") is e
 
 
 def _metadata_to_registry(ts: str, mn: str, rt: str, k: int, d: int, has_d: bool) -> bool:
